@@ -26,7 +26,9 @@ klass('Handlers')
 klass('SSLContext')
 klass('AuthSession')
 klass('Match')
-klass('Timeout', fields={})
+klass('Timeout', fields={'seconds': 'Opt[Real]'})
+extern('Timeout.__init__', params={'self': 'Timeout', 'seconds': 'Opt[Real]', 'exception': 'Any'},
+       defaults={'seconds': 'None', 'exception': 'None'}, modifies=['self.seconds'], ensures=['self.seconds == seconds'])
 
 klass('Server', module=M,
       fields={'handlers': 'Handlers', 'extensions': 'Extensions', 'io': 'IO', 'bannered': 'Bool',
@@ -260,13 +262,13 @@ extern('IO.recv_command', params={'self': 'IO'}, returns='Tuple[Opt[Bytes], Opt[
        raises={'ConnectionLost': [], 'Timeout': []},
        notes='IO.recv_command blocks on the peer: G4 requires an enclosing Timeout scope (C14)')
 
-contract('Server._recv_command', module=M, props=['C14'],
+contract('Server._recv_command', module=M, props=['C14'], scope_timeouts=['self.command_timeout'],
          params={'self': 'Server'}, returns='Tuple[Opt[Bytes], Opt[Bytes]]',
          requires=['self.io != None'],
          raises={'ConnectionLost': [], 'Timeout': []},
          modifies=['fresh'])
 
-contract('Server._get_message_data', module=M, props=['C07', 'C14', 'C09'],
+contract('Server._get_message_data', module=M, props=['C07', 'C14', 'C09'], scope_timeouts=['self.data_timeout'],
          params={'self': 'Server'},
          requires=S_OK,
          ensures=[
